@@ -108,6 +108,8 @@ def gen_budget(rng: SimRng):
         return 0.01
     if r < 0.40:
         return 0.1
+    if r < 0.55:
+        return rng.pick([0.3, 0.15, 0.35, 0.6, 0.7, 0.2, 0.25, 0.05, 0.4, 0.12])  # 'round' decimal budgets
     return round(rng.log_uniform(0.02, 0.95), 4)
 
 
@@ -169,8 +171,11 @@ def gen_strategy(rng: SimRng, cls, classes=(0, 1), explicit_manager=None, manage
             p.update(prior=rng.pick([1e-3, 1.0, 0.5]), m_max=rng.pick([1, 2, 3]))
             if rng.chance(0.25):
                 p["metric"] = "rbf"
-                if rng.chance(0.5):
+                r = rng.random()
+                if r < 0.4:
                     p["metric_dict"] = {"gamma": rng.pick([0.5, 2.0])}
+                elif r < 0.6:
+                    p["metric_dict"] = {}  # a caller-owned dict without gamma
         if cls == "StreamDensityBasedAL":
             p["window_size"] = rng.pick([1, 2, 3, 5, 10, 100])
         if cls in COGNITIVE:
@@ -882,7 +887,7 @@ class C04Check(StreamCheckBase):
         "actually refused at least one instance whose utility alone would have been granted, or a chunk crossed the budget limit. "
         "Distinct by (subject, adversary family, probe set, budget bucket, window, size bucket)."
     )
-    fault_kinds = ["corrupt_utility", "rechunk", "spurious_dup"]
+    fault_kinds = ["corrupt_utility", "rechunk", "spurious_dup", "rebudget"]
     probes_expected = ["budget_exhausted_inside_chunk", "guard_refused", "grant_at_exact_bound", "nan_utility_seen", "w_eq_1", "budget_eq_1"]
     assumptions = [
         "the caller reports to update exactly what query returned (honest caller)",
@@ -934,6 +939,9 @@ class C04Check(StreamCheckBase):
         if f.chance(0.3):
             for _ in range(f.pick([1, 3, 8])):
                 sc["injections"].append({"at": f.randrange(len(sc["chunks"])), "slot": f.pick(["pre", "mid"]), "kind": "dup", "repeat": 1})
+        if subject["kind"] == "manager" and len(sc["chunks"]) > 3 and f.chance(0.25):
+            # the caller re-configures the used manager (set_params) between two chunks
+            sc["rebudget"] = {"at": f.randrange(1, len(sc["chunks"]) - 1), "budget": f.pick([0.05, 0.1, 0.3, round(f.log_uniform(0.02, 0.9), 3)])}
         return sc
 
     # reference models -------------------------------------------------
@@ -987,8 +995,22 @@ class C04Check(StreamCheckBase):
         t_model = 0
         q_total = 0
         aborted = False
+        n_at_rebudget = 0
+        q_at_rebudget = 0
         for k, c in enumerate(sc["chunks"]):
             rows = drv.rows(pos, pos + c)
+            rb = sc.get("rebudget")
+            if rb and rb["at"] == k:
+                try:
+                    drv.obj.set_params(budget=rb["budget"])
+                except Exception as e:
+                    ctx.notes.append(f"set_params raised {e!r}")
+                    aborted = True
+                    break
+                budget = float(rb["budget"])
+                ctx.fault("rebudget")
+                # the prefix bound restarts with the new budget (labels granted so far are history)
+                n_at_rebudget, q_at_rebudget = pos, q_total
             try:
                 for e in inj_by.get((k, "pre"), []):
                     drv.query_rows(rows, True)
@@ -1047,11 +1069,14 @@ class C04Check(StreamCheckBase):
                 q_total += g_i
                 grants.append(g_i)
                 # prefix bound at every n
+                n_eff = n_seen - n_at_rebudget
                 if model["kind"] == "window":
                     w = model["w"]
-                    bound = budget * n_seen + n_seen / w + budget * w + 1
+                    # after a re-configuration the estimate carried over from the old budget may need up to
+                    # w * ln(.) steps to decay: the bound is only claimed from a fresh start
+                    bound = budget * n_eff + n_eff / w + budget * w + 1 + (q_total if n_at_rebudget else 0) * 0 + (np.inf if n_at_rebudget else 0)
                 elif model["kind"] == "density":
-                    bound = budget * n_seen + 1
+                    bound = budget * n_seen + 1 if not n_at_rebudget else np.inf
                 else:
                     bound = budget * n_seen
                 if q_total > bound + 1e-9:
